@@ -66,7 +66,46 @@ def call(case):
         return q.to_scalars(a['rec'])
     if op in ('as_row', 'as_column', 'as_diagonal'):
         return getattr(q, op)(a['rec'])
+    if op == 'as_class':
+        c = CLS[a['target']]
+        return getattr(c, 'as_' + a['target'].lower())(q, recursive=a['rec'])
     raise KeyError(op)
+
+
+def conversion_problem(case, r):
+    """as_<class> conversions (swept, not modelled): class coercion must leave every element where it is.
+    Returns None or (tag, text)."""
+    o, a = case['obj'], case['args']
+    V, M, ds = ref_arrays(o)
+    n = prod(o['shape'])
+    isz = prod(o['numer']) * prod(o['denom'])
+    if not isinstance(r, CLS[a['target']]):
+        return ('class', 'result is a %s' % type(r).__name__)
+    if list(r._shape_) != list(o['shape']):
+        return ('leading', 'leading shape changed to %s' % (r._shape_,))
+    def flat_eq(x, Vx, Mx, size):
+        if prod(x._numer_) * prod(x._denom_) != size:
+            return 'item size changed: %s / %s' % (x._numer_, x._denom_)
+        if not np.array_equal(expanded_mask(x), Mx):
+            return 'mask changed'
+        got = np.broadcast_to(np.asarray(x._values_), tuple(x._shape_) + tuple(x._numer_) + tuple(x._denom_))
+        keep = ~Mx.reshape(n)
+        if not np.array_equal(np.asarray(got, dtype='float64').reshape(n, size)[keep], Vx.reshape(n, size)[keep]):
+            return 'unmasked values changed or moved'
+        return None
+    p = flat_eq(r, V, M, isz)
+    if p:
+        return ('values', p)
+    for key, dk, Vk, Mk in ds:
+        if key in r._derivs_:
+            p = flat_eq(r._derivs_[key], Vk, Mk, prod(o['numer']) * prod(dk))
+            if p:
+                return ('deriv', 'derivative %s: %s' % (key, p))
+        elif a['rec'] and list(r._numer_) == list(o['numer']):
+            # (when the numerator changes, the conversion goes through split_items / join_items, which remove
+            # derivatives by design)
+            return ('derivs-dropped', 'derivative %s is missing from the result although recursive=True' % key)
+    return None
 
 
 # ------------------------------------------------------------------------------------------ leading-axis operations
@@ -371,6 +410,8 @@ LEADING = ('reshape', 'flatten', 'swap_axes', 'roll_axis', 'move_axis', 'broadca
 
 
 def expect(case):
+    if case['op'] == 'as_class':
+        return None                     # judged by conversion_problem on the raw result
     if case['op'] in LEADING:
         return expect_leading(case)
     if case['op'] in ('stack', 'from_scalars'):
